@@ -38,6 +38,13 @@ func c20Package(rng *rand.Rand, idx int) rcase {
 		}
 		pi.Raw = raw
 		resp := echo
+		switch oi % 4 {
+		case 1:
+			// array-valued response headers (answered from a slice shared by every request)
+			resp.Headers = append(append([]dialect.Header{}, echo.Headers...), dialect.Header{Name: "X-Tags", Required: true, Schema: &dialect.Schema{Type: "array", Items: &dialect.Schema{Type: "string"}}})
+		case 3:
+			resp.Headers = append(append([]dialect.Header{}, echo.Headers...), dialect.Header{Name: "X-Nums", Required: true, Schema: &dialect.Schema{Type: "array", Items: &dialect.Schema{Type: "integer", Format: "int64"}}})
+		}
 		if oi%3 == 2 {
 			// a JSON body with arrays of arrays defined in place (answered from a table shared by every request)
 			grid := &JS{Kind: "obj", Members: []JM{
